@@ -181,6 +181,10 @@ def main(tier, seed, replay=None):
     for name, body in CS.ADV.items():
         api_cases.append(("adv:" + name, CS.PFX + body, {"advanced": True}))
         api_cases.append(("adv+iterate:" + name, CS.PFX + body, {"advanced": True, "iterate_rules": True}))
+    # the advanced-feature shapes once more WITHOUT advanced mode, after the advanced runs of this process: SHACL-AF vocabulary is then
+    # ignored (or rejected through a documented channel), whatever earlier calls left behind
+    for name, body in CS.ADV.items():
+        api_cases.append(("plain after advanced:" + name, CS.PFX + body, {}))
     channels, raw, cli_jobs = {}, [], []
     data_ttl = CS.DATA
 
@@ -347,7 +351,9 @@ def main(tier, seed, replay=None):
     cov = F.proof_coverage(ob, [
         "translator/t3.py (fail-closed extraction of the except clauses, their exit_code assignments, the finally block, the final sys.exit and the early exits of cli.main(); class table of errors.py)",
         "coq/Mini/Cli.v: Python's except-clause dispatch modelled as 'first clause whose class occurs in the raised class's MRO'; an uncaught exception ends the interpreter with status 1",
-        "the API half of the property (no undocumented exception class escapes validate()) is NOT a theorem: it is decided by the enumeration of failure causes of this run",
+        "translator/t4.py, t5.py (closure loops and the rdf list check of the shapes graph constructor), translator/t6.py (fail-closed census of every raise statement and of the calls of the caller-handled helpers in the modules of pyshacl/ on the validate() path; out of scope: cli.py, cli_rules.py, sh_http.py, __main__.py, validator_conformance.py, extras/)",
+        "coq/Mini/Raises.v internal_guards: 28 listed raise statements that check Python argument types of the API or invariants of the code (each with its reason in the file) are accepted by C16_raise_census as not reachable from RDF input",
+        "exceptions raised IMPLICITLY (a failing expression, an rdflib or re error) are outside the census: for them the API half of the property is NOT a theorem, it is decided by the enumeration of failure causes of this run",
     ])
     cov.update({
         "evaluations": len(bodies) + len(api_cases) + n_mut + cli_runs,
